@@ -11,7 +11,7 @@ from __future__ import annotations
 import ast
 from typing import Dict, List, Optional, Set
 
-from ..model import Program, AnalysisError, FuncInfo, walk_local, dotted
+from ..model import Program, AnalysisError, FuncInfo, walk_local, dotted, parents_of
 from ..cfg import CFG
 from ..report import RuleResult, guard
 from ..astutil import src, site, calls_in, call_name, is_self_attr
@@ -544,6 +544,46 @@ def _hv_truth(prog):
     return hv_truth(prog)
 
 
+def match_select(prog: Program) -> RuleResult:
+    """'Selected inner parts are reported consistently with the matched element.'  A nested select is resolved like a nested match: on the
+    attribute, or - for a collection attribute with constraints - on its flattened elements, and there it selects the variable it was resolved
+    on.  The enclosing match must not select the attribute itself as well for such a select (the row would carry the whole collection, and the
+    select object would stand for it): it selects the attribute only for a select that is not resolved further."""
+    r = RuleResult("MATCH-SELECT", "a nested select is selected once, as the variable its pattern is resolved on", floor=1)
+    mt = prog.cls("match.Match")
+    f = mt.methods.get("_resolve")
+    if f is None:
+        raise AnalysisError("MATCH-SELECT: Match._resolve vanished")
+    par = parents_of(f.node)
+    sel_calls = [c for c in calls_in(f.node) if call_name(c) == "_update_selected_variables" and c.args and isinstance(c.args[0], ast.Attribute) and c.args[0].attr == "attr"]
+    res_calls = [c for c in calls_in(f.node) if call_name(c) == "resolve"]
+    if not res_calls:
+        raise AnalysisError("MATCH-SELECT: Match._resolve no longer resolves nested matches")
+    if not sel_calls:
+        r.ok("Match._resolve#attribute-selected-for-resolved-selects-only", site(f), "", "the attribute itself is never selected by the enclosing match")
+        return r
+    bad = None
+    for c in sel_calls:
+        cur, excl = c, False
+        while cur in par:
+            up = par[cur]
+            if isinstance(up, ast.If):
+                t = src(up.test)
+                in_body = any(cur is st or cur in ast.walk(st) for st in up.body)
+                if "is_an_unresolved_match" in t:
+                    neg = any(isinstance(x, ast.UnaryOp) and isinstance(x.op, ast.Not) and "is_an_unresolved_match" in src(x.operand) for x in ast.walk(up.test))
+                    if (in_body and neg) or (not in_body and not neg):
+                        excl = True
+            cur = up
+        if not excl:
+            bad = bad or c
+    r.check(bad is None, "Match._resolve#attribute-selected-for-resolved-selects-only", site(f, bad) if bad is not None else site(f, sel_calls[0]), src(sel_calls[0])[:80],
+            "the attribute is selected only where the select is not resolved below",
+            f"`{src(bad) if bad is not None else ''}` also runs for a select that is resolved below: for parts=select(Wheel)(name='w1') the whole parts list is selected next to the matched "
+            "wheel and answers[select] is the list")
+    return r
+
+
 def run(prog: Program, tier: str) -> List[RuleResult]:
     from .c03 import domain_cache
 
@@ -553,4 +593,4 @@ def run(prog: Program, tier: str) -> List[RuleResult]:
     # match_any compiles to the existential quantifier: one answer per binding of the free variables
     return [guard(lambda: match_table(prog)), guard(lambda: match_kind(prog)), guard(lambda: match_iter(prog)), guard(lambda: match_factory(prog)), guard(lambda: match_memo_order(prog)), guard(lambda: match_ops(prog)), guard(lambda: ident_dedup(prog)), guard(lambda: domain_cache(prog)), guard(lambda: ep_quant(prog)),
             # selected inner parts are evaluated under the bindings of the matched element: the row threading of C01
-            guard(lambda: ep_thread(prog)), guard(lambda: _hv_truth(prog)), guard(lambda: _carry1(prog))]
+            guard(lambda: ep_thread(prog)), guard(lambda: _hv_truth(prog)), guard(lambda: _carry1(prog)), guard(lambda: match_select(prog))]
